@@ -151,9 +151,10 @@ structure Module where
   attrs : List Attr
   types : Forest
   staticRefs : List Bool    -- per `constant_reference` expression: `is_constant_type(type)`
-  gated : List Emboss.Bounds.ATree := []
+  gated : List (Bool × Emboss.Bounds.ATree) := []
                             -- the outermost expressions the 64-bit gate is called on (not in
-                            -- enum values, not in `[static_requirements]`), annotated, in order
+                            -- enum values, not in `[static_requirements]`), annotated, in order;
+                            -- the flag: the expression is SYNTHETIC (`$size_in_bytes` & co.)
   deriving Repr
 
 abbrev Program := List Module
@@ -402,14 +403,13 @@ def checkAttrType (a : Attr) : List EK :=
   | some .backEnds =>
     (match a.val with
      | .str s => if validBackEnds s then [] else [.attrBackEnds]
-     | _ => [.attrType a.name])              -- see note below
+     | _ => [.attrType a.name])              -- `attribute_util.STRING` runs first
   | some .unknownChecker => [.crash]
 
-/- Note on `checkAttrType`: for a value of the wrong *kind* the Python validators
-`_is_constant_boolean` (non-boolean expression) and `_valid_back_ends` (non-string) currently
-raise AttributeError (open findings of C14, patch in fixes/); the model returns the type error
-the validators are meant to return — the behaviour with the patch applied.  The harness routes
-the two crashes to the known findings and does not compare the model on them. -/
+/- Note on `checkAttrType`: for a value of the wrong *kind* the validators `_is_constant_boolean`
+(non-boolean expression) and `_valid_back_ends` (non-string) return the type error (since the
+`fix:` commits 74b10f8 / d07ebca; before them they raised AttributeError — the pinned inputs are
+in corpus/C14/fixed-*.json and are compared like every other case). -/
 
 /-- `_check_attributes` with `back_end=None`: qualified attributes are skipped; `seen` is
 `already_seen_attributes`. -/
@@ -768,12 +768,16 @@ def constraintsOfType (p : Program) (c : Option AVal × TypeInfo) : List EK :=
   ++ t.params.flatMap (paramReq p)
 
 /-- `_check_bounds_on_runtime_integer_expressions` on the gated expressions of a module
-(`none` = `int("infinity")` raises inside the gate). -/
-def gateErrs (m : Module) : List EK :=
-  m.gated.flatMap (fun t =>
-    match Emboss.Bounds.gate t with
-    | none => [.crash]
-    | some es => es.map .gate)
+(`none` = `int("infinity")` raises inside the gate).  `glue.process_ir` splits the errors of a
+pass (`error.split_errors`): those located in synthetic IR (`syn = true`) are deferred and only
+shown if no pass reports a user-visible error. -/
+def gateErrs (syn : Bool) (m : Module) : List EK :=
+  m.gated.flatMap (fun g =>
+    if g.1 = syn then
+      match Emboss.Bounds.gate g.2 with
+      | none => [.crash]
+      | some es => es.map .gate
+    else [])
 
 def staticRefErrs (m : Module) : List EK :=
   m.staticRefs.flatMap (fun b => if b then [] else [.staticRef])
@@ -782,7 +786,7 @@ def staticRefErrs (m : Module) : List EK :=
 def constraintsByEntity (p : Program) : List EK :=
   (allTypes p).flatMap (constraintsOfType p)
   ++ p.flatMap staticRefErrs
-  ++ p.flatMap gateErrs
+  ++ p.flatMap (gateErrs false)
 
 /-- Apply `g` to the physical fields of `t`. -/
 def onPhys (t : TypeInfo) (g : Field → List EK) : List EK :=
@@ -803,7 +807,7 @@ def passConstraints (p : Program) : List EK :=
   ++ trav p (fun _ t => if isReserved t.name then [.reservedType] else []) noVisit -- [TypeDefinition]
   ++ p.flatMap staticRefErrs                                                -- [Expression]
   ++ trav p (fun _ t => enumValues t) noVisit                               -- [Enum]
-  ++ p.flatMap gateErrs                                                     -- [Expression], gate
+  ++ p.flatMap (gateErrs false)                                             -- [Expression], gate
   ++ trav p noVisit (fun _ t => t.params.flatMap (paramReq p))              -- [RuntimeParameter]
 
 /-- Per-entity regrouping of `passEarly` (lemmas). -/
@@ -814,7 +818,12 @@ def earlyByEntity (p : Program) : List EK :=
 def passEarly (p : Program) : List EK :=
   trav p noVisit (fun _ t => t.params.flatMap earlyParam)
 
-/-- The four passes in `process_ir` order; a pass that reports errors ends the pipeline. -/
+/-- The deferred (synthetic-location) errors of `check_constraints`. -/
+def passDeferred (p : Program) : List EK :=
+  p.flatMap (gateErrs true)
+
+/-- The four passes in `process_ir` order; a pass that reports (user-visible) errors ends the
+pipeline; the deferred ones are reported at the end. -/
 def check (p : Program) : List EK :=
   let e := passEarly p
   if e ≠ [] then e else
@@ -822,6 +831,8 @@ def check (p : Program) : List EK :=
   if a ≠ [] then a else
   let v := passVerify p
   if v ≠ [] then v else
-  passConstraints p
+  let c := passConstraints p
+  if c ≠ [] then c else
+  passDeferred p
 
 end Emboss.Constraints
